@@ -14,14 +14,20 @@ PENDING = ("The Coq model of the code involved is tied to /repo by the correspon
            "property's model are not finished, so this is NOT claimed at proof level yet.")
 
 CLAIMS = {
- "C01": ("proof", "PARTIAL (semantic half proved, syntactic half decided on generated instances). Theorem by induction over all "
-         "specification expressions (through argument lists and object literals): the evaluator model applied to the expression's AST "
-         "gives exactly the specification value - wrapping int64, IEEE-754 binary64 via Flocq, byte strings, same-type rule, errors for "
-         "mixed types, /0, %0 and unknown identifiers - for every environment and sufficient fuel; Go's binding-power table (regenerated "
-         "from parser.go) is a strictly monotone image of the property's levels, every operator sits on its level, the operand precedences "
-         "of every parseExpression call site are pinned. The printer -> lexer -> Pratt parser round trip is checked on every ordered "
+ "C01": ("proof", "Both halves are theorems. Semantic half, by induction over all specification expressions (through argument lists and "
+         "object literals): the evaluator model applied to the expression's AST gives exactly the specification value - wrapping int64, "
+         "IEEE-754 binary64 via Flocq, byte strings, same-type rule, errors for mixed types, /0, %0 and unknown identifiers - for every "
+         "environment and sufficient fuel. Syntactic half (Proofs/Pratt.v): for every concrete syntax tree that respects the binding powers "
+         "regenerated from parser.go - atoms, parentheses (redundant or not), the 11 binary operators, prefix - and !, postfix ++/--, the "
+         "ternary, indexing, property access, method calls and array literals with any number of arguments - the token sequence of the tree "
+         "parses to exactly the AST of the tree, with whatever fuel the parser returns (fuel monotonicity, Proofs/FuelMono.v) and with the "
+         "fuel parse_tokens allots (ParseTotal.v); two neighbouring binary operators group to the left exactly when the second does not bind "
+         "tighter; the statement {{ c }} parses to one expression statement, whose value is the specification's (ExprPipeline.v). Go's "
+         "binding-power table is a strictly monotone image of the property's levels and the operand precedences of every parseExpression "
+         "call site are pinned. Not theorems: object literals in the syntactic half, and that blanks/newlines do not change the token "
+         "sequence (lexer model = lexer on every generated layout). The printer -> lexer -> parser round trip is also run on every ordered "
          "pair/triple of operator forms and random trees under layouts (model = implementation, implementation = specification value).",
-         "8.C01", "refinement theorem evaluator-model = specification semantics + translator-pinned precedence tables + extracted printer/semantics as oracle"),
+         "8.C01", "Pratt-parser correctness theorem (tokens of a tree parse to the tree) + refinement theorem evaluator-model = specification semantics + translator-pinned precedence tables + extracted printer/semantics as oracle"),
  "C02": ("proof", "Refinement theorem (induction on the specification's fuel over nodes, blocks, @each and @for passes together): on the AST of "
          "every specification template the model's statement evaluator gives the same output, signal and scope chain as the clean big-step "
          "semantics of Spec/Template.v, and an error where it says error - so @if renders exactly the first branch whose condition is truthy, "
@@ -40,12 +46,16 @@ CLAIMS = {
          "after any statement is the specification's (assignment binds in the innermost block, one child scope per @if/loop discarded at "
          "@end, env_set = the specification's assign). Tied by correspondence.", "8.C04",
          "invariant by induction over evaluator fuel and assignment sequences + refinement to the scoped big-step specification"),
- "C05": ("proof", "PARTIAL (plain text proved; escapes and comments decided on generated instances). Theorem: for every byte string with no "
-         "NUL, no '{{' and no '@' that starts a directive keyword (table regenerated from token.go) the lexer model yields one text token "
-         "whose literal is the input then EOF (loop invariant of readHTML), the parser one HTML statement, and the model's render is the "
-         "input itself for any data; the reference scanner of Spec/Text.v is the identity on such text. Exhaustive short strings over the "
-         "escape/comment alphabet and spliced segments run against the reference scanner.", "8.C05",
-         "loop-invariant proof over the lexer model + parser/evaluator computation + extracted reference scanner as oracle"),
+ "C05": ("proof", "PARTIAL (the three sentences are theorems for whole templates of text and escapes and for comments at the lexer; text "
+         "spliced around code blocks and directives is decided on generated instances). Theorems: for every byte string with no NUL, no "
+         "'{{' and no '@' that starts a directive keyword (table regenerated from token.go) the lexer model yields one text token whose "
+         "literal is the input then EOF (loop invariant of readHTML), the parser one HTML statement, and the model's render is the input "
+         "itself for any data; for every byte string whose only active syntax is escapes (a backslash directly before '{{' or before a "
+         "directive keyword) the single text token holds the text with exactly those backslashes removed and the render is that text - in "
+         "both cases what the reference scanner of Spec/Text.v says; for every lexer state in text mode standing on a terminated comment, "
+         "NextToken is NextToken of the state just after the terminator the specification's find_term finds: no token, whatever the "
+         "comment holds. Exhaustive short strings over the escape/comment alphabet and spliced segments run against the reference scanner.",
+         "8.C05", "loop-invariant proofs over the lexer model (text, escapes, comment skip) + parser/evaluator computation + extracted reference scanner as oracle"),
  "C06": ("proof", "Step theorems on the loader and evaluator model: a page with @use loads to the layout's program alone; inserts are attached "
          "to their reserves wherever these stand; a filled reserve shows exactly what the insert's body or expression renders in place, an "
          "unfilled one nothing; insert without reserve and missing layout are load errors, a layout using a layout fails at render; '~x' is "
@@ -58,10 +68,16 @@ CLAIMS = {
          "arguments in the caller's scope and renders in a fresh scope on top of it, a placeholder shows the passed body or nothing. "
          "End-to-end output of pages with several uses is decided on generated trees against the per-use substitution oracle.", "8.C07",
          "step theorems + induction over statement lists on the loader model + correspondence + per-use substitution oracle"),
- "C08": ("proof", "PARTIAL: lexer totality proved (NextToken returns from every state within a fuel bound linear in the remaining "
-         "input); the parser's loop guards are regenerated from parser.go and pinned by a theorem. Parser termination and the "
-         "program-or-error contract are decided by correspondence and oracle over exhaustive lexeme sequences and mutations.", "8.C08",
-         "termination proof for the lexer model + translator-pinned loop guards + exhaustive lexeme-sequence oracle"),
+ "C08": ("proof", "Proved for every byte string, on the lexer and parser models: NextToken always returns; each call consumes input, returns "
+         "EOF, or returns an ILLEGAL token that the next call returns again unchanged, so the token stream is finite and ends in EOF or "
+         "ILLEGAL (lex_all is total); the parser - all 20 mutually recursive parse functions - returns on every such token list within the "
+         "fuel the model allots (depth <= 6 per remaining token + rank: every loop iteration and every cycle of the call graph consumes a "
+         "token), never through the branch in which the Go code would panic, with a program and no recorded error or with at least one "
+         "error, each carrying a line >= 1; an input on which the lexer stops at an illegal character is always rejected. The parser's loop "
+         "guards are regenerated from parser.go. Not theorems: rejection of unterminated strings / comments / blocks / argument lists "
+         "(decided by the oracle on every prefix and mutation of generated templates and exhaustive lexeme sequences), and that the models "
+         "are the code (correspondence, with a watchdog outside the process).", "8.C08",
+         "termination + program-or-error theorems for the lexer and parser models (measure: remaining tokens, rank on the call graph) + translator-pinned loop guards + exhaustive lexeme-sequence oracle"),
  "C09": ("proof", "Theorem by mutual induction over the evaluator's fuel: on a well-formed program (no nil node where one is dereferenced, "
          "dot keys are identifiers, component arguments are object literals) no expression, statement, block, loop or render of the model "
          "reaches a Panic outcome, for every environment, data map and amount of fuel; operators and property access are total. The model marks "
@@ -75,8 +91,9 @@ CLAIMS = {
          "contract written from the property text (Spec/BuiltinSpec.v): the contract's value where it gives one, an error or 'no such "
          "function' where it says error - 17 string, 9 array, 5 integer, 6 float, 2 boolean functions, all arities and kinds; plus contract "
          "facts (slice is a contiguous segment for all bounds, reverse is an involution, append/prepend extend) and 'a built-in name wins over "
-         "a custom function'. The model is tied to the code by receivers x argument tuples x boundary counts; purity and UTF-8 validity of "
-         "every implementation result are observed by the run, not proved.", "8.C11",
+         "a custom function'; UTF-8: encoding any list of Unicode scalar values gives valid UTF-8, decoding it gives the list back, so the "
+         "character functions (reverse, at/first/last, truncate) return valid UTF-8 on valid input. The model is tied to the code by receivers "
+         "x argument tuples x boundary counts; purity of every implementation result is observed by the run, not proved.", "8.C11",
          "model-meets-contract theorem over all names/receivers/arguments + correspondence + extracted contract as oracle"),
  "C12": ("proof", "Theorems by induction over the abstract Go value (through slices, maps, structs, pointers): the data conversion succeeds "
          "exactly when no unsupported kind occurs at any depth outside unexported fields; scalars keep their value (integers as int64), "
